@@ -8,6 +8,7 @@ satisfies all of its predicates (`checkNogood_sound`).
 -/
 import Pumpkin.Spec.Basic
 import Pumpkin.Check.Oracle
+import Pumpkin.Model.SemMin
 
 namespace Pumpkin.C02
 
@@ -48,6 +49,19 @@ theorem prefix_unsat (doms : List (List Int)) (cs1 cs2 : List Cons)
 theorem learned_nogood_sound (m : Model) (ng : List Atom)
     (h : checkNogood (solutions m) ng = true) (a : List Int) (ha : m.sat a = true) :
     ¬ ∀ p ∈ ng, p.holds a = true := checkNogood_sound m ng h a ha
+
+/-- The semantic minimiser (`Model/SemMin.lean` mirrors `semantic_minimiser.rs`), through which every
+learned nogood and every posted clause passes, preserves meaning: for every assignment within the
+original domains the predicates of the input all hold iff the predicates of the output all hold, and
+"trivially false" is answered only when no such assignment satisfies the input. A nogood that was
+implied by the model therefore stays implied, and no new nogood is invented. -/
+theorem semantic_minimiser_preserves_meaning (orig : Nat → Pumpkin.SemMin.SD) (ng : List Atom) (merge : Bool)
+    (a : List Int) (ha : ∀ x, (orig x).Sem (val a x)) :
+    (∀ p ∈ ng, p.holds a = true) ↔
+      (match Pumpkin.SemMin.minimise orig ng merge with
+       | none => False
+       | some out => ∀ q ∈ out, q.holds a = true) :=
+  Pumpkin.SemMin.minimise_sem orig ng merge a ha
 
 example : (solutions (Model.mk [[0, 1], [0, 1]]
     [Cons.linNe [⟨1, 0, 0⟩, ⟨-1, 0, 1⟩] 0, Cons.linEq [⟨1, 0, 0⟩, ⟨1, 0, 1⟩] 2])).isEmpty = true := by
